@@ -30,6 +30,34 @@ def extract(repo):
     return out
 
 
+def selftest(pid, chk, repo):
+    """thorough tier: seeded-variant self-test of this property's rules (DESIGN §9).  Each variant of
+    mutants/table.py naming this property is applied to a scratch copy of the tree under test, must still compile,
+    and must be reported ('break') or leave the check silent ('keep').  Variants that do not apply are skipped."""
+    import tempfile
+    out = tempfile.mktemp(suffix='.json', dir=os.path.join(VERIF, '.cache'))
+    r = subprocess.run([sys.executable, os.path.join(VERIF, 'tools', 'mutate.py'), '--only-prop', pid, '--repo', repo,
+                        '--jobs', '4', '--json', out], capture_output=True, text=True)
+    try:
+        res = json.load(open(out))
+        os.remove(out)
+    except (OSError, ValueError):
+        print('SELFTEST property=%s could not run: %s' % (pid, r.stderr[-300:]))
+        chk.extra['selftest'] = dict(error=r.stderr[-300:])
+        return
+    summ = {}
+    for x in res:
+        summ[x['status']] = summ.get(x['status'], 0) + 1
+    weak = [x['id'] for x in res if x['status'] in ('SURVIVED', 'FALSE-ALARM')]
+    for x in res:
+        print('SELFTEST property=%s variant=%s status=%s %s' % (pid, x['id'], x['status'], x.get('violations') or x.get('why', '')))
+    if weak:
+        print('SELFTEST-WEAK property=%s variants=%s (checker self-test, not a property violation)' % (pid, weak))
+    chk.extra['selftest'] = dict(summary=summ, variants=res)
+    chk.evaluations += len(res)
+    print('SELFTEST property=%s %s' % (pid, summ))
+
+
 def main():
     ap = argparse.ArgumentParser()
     ap.add_argument('prop')
@@ -71,6 +99,7 @@ def main():
             only = None
             if a.replay:
                 only = json.load(open(a.replay)).get('key')
+                chk.only = only
             try:
                 mod.run(facts, chk, a.tier, only)
             except AnchorLost as e:
@@ -79,6 +108,8 @@ def main():
                 import traceback
                 tb = traceback.format_exc().strip().splitlines()
                 chk.anchor_lost('run', '%s:run' % p, '%s: %s @ %s' % (type(e).__name__, e, tb[-3].strip() if len(tb) >= 3 else ''))
+            if a.tier == 'thorough' and not a.replay:
+                selftest(p, chk, a.repo)
             rc |= chk.finish()
     finally:
         if tmp and not a.keep_facts:
